@@ -443,7 +443,7 @@ func (c *clientV2) SetReadyCount(count int64) {
 	if oldCount != count {
 		c.tryUpdateReadyState()
 	}
-	verif.Ev("KRdyDone", "k", c.ID, "n", count)
+	verif.Ev("KRdyDone", "k", c.ID, "n", count, "now", time.Now().UnixNano())
 }
 
 func (c *clientV2) tryUpdateReadyState() {
